@@ -24,5 +24,5 @@ PLAN = dict(
     quick=_jobs("quick"), thorough=_jobs("thorough"),
     required_classes=dict(all=["cols:odd", "cols:even", "res_size<ncols,odd", "res_size>ncols", "a_size<nrows", "a_size>nrows",
                                "a_size=0", "res_size=0", "N<8", "cfg:generic", "cfg:full", "exact", "E>=1/2", "entry:apply_dft",
-                               "entry:dft_to_dft", "entry:both", "bigshape"] + ["k:%d" % k for k in range(1, 17)]),
+                               "entry:dft_to_dft", "entry:both", "bigshape", "matrix:has-zero-polynomial"] + ["k:%d" % k for k in range(1, 17)]),
 )
